@@ -509,6 +509,7 @@ func (w *Worker) runPath(t task) {
 		// per harness override handled through cfg copy
 	}
 	kind, msg := w.execute(e, r)
+	e.undoGlobalWrites()
 	// publish
 	r.mu.Lock()
 	r.Steps += int64(e.steps)
